@@ -173,14 +173,14 @@ static void step14(int code) {
 /* closure with the Darwin glue (mapping-related lines) and the periodic tick */
 static dw_iface D, D2;          /* D2: the engine of a second interface; it never receives a frame, only the periodic tick */
 static struct { uint8_t s; uint8_t in_age; uint8_t frame_age; uint8_t had_frame; } M14;   /* ages in s, capped */
-static const int FR14[] = {0x00, 0x02, 0x08, 0x04, 0x06, 0x0B, 0x09, 0x01, 0x05, 0x0D, 0xFF};
+static const int FR14[] = {0x00, 0x02, 0x08, 0x04, 0x06, 0x0B, 0x09, 0x01, 0x05, 0x0D, 0xFF, 0x100};   /* 0x100: Discover of the same mapper with a second generation (a second table key) */
 static const int IN14[] = {-1, -2, -3};
 static const int ADV14[] = {1, 4, 5, 6, 29, 30, 31, 300};
-#define NFR 11
+#define NFR 12
 #define NIN 3
 #define NADV 8
 static void c14_name(int ev, char *buf, size_t cap) {
-    if (ev < NFR) snprintf(buf, cap, "frame opcode 0x%02x", FR14[ev]);
+    if (ev < NFR) snprintf(buf, cap, "frame opcode 0x%02x%s", FR14[ev] & 0xFF, FR14[ev] & 0x100 ? " (generation 0x1235)" : "");
     else if (ev < NFR + NIN) snprintf(buf, cap, "internal input %d", IN14[ev - NFR]);
     else if (ev < NFR + NIN + NADV) snprintf(buf, cap, "advance %d s", ADV14[ev - NFR - NIN]);
     else if (ev == NFR + NIN + NADV) snprintf(buf, cap, "tick");
@@ -202,6 +202,13 @@ static void check_step14(int in, const char *what) {
     M14.s = (uint8_t)got; M14.in_age = 0;
 }
 static int c14_enabled(int ev) {
+    if (A.a == 0) { if (ev < NFR && FR14[ev] == 0x100) return 0; }          /* one table key: the full alphabet */
+    else {                                                                  /* two table keys: Discover of either generation, Emit, Reset, 4/29/31 s, tick */
+        if (ev < NFR) { int f = FR14[ev]; if (f != 0x00 && f != 0x100 && f != 0x02 && f != 0x08) return 0; }
+        else if (ev < NFR + NIN) return 0;
+        else if (ev < NFR + NIN + NADV) { int a = ADV14[ev - NFR - NIN]; if (a != 4 && a != 29 && a != 31) return 0; }
+        else if (ev == NFR + NIN + NADV + 1) return 0;
+    }
     if (ev < NFR && FR14[ev] == 0x09) return ((mapping_state *)D.mappingAutomata->extra)->ctc < 3;   /* stated bound on the charge counter */
     return 1;
 }
@@ -209,9 +216,9 @@ static void c14_apply(int ev) {
     if (ev < NFR) {
         static uint8_t buf[1600]; memset(buf, 0, sizeof buf);
         fb_base(buf, W.iface[0].mac, vf_station[ST_M1], 0, (uint8_t)FR14[ev], W.iface[0].mac, vf_station[ST_M1], 1);
-        buf[32] = 0x12; buf[33] = 0x34;
+        buf[32] = 0x12; buf[33] = FR14[ev] & 0x100 ? 0x35 : 0x34;
         dw_frame(&D, buf, 64);
-        check_step14(FR14[ev], "frame");
+        check_step14(FR14[ev] & 0xFF, "frame");
         M14.frame_age = 0; M14.had_frame = 1;
         /* the tick at the end of the frame path runs with 0 s of silence: nothing to demand */
     } else if (ev < NFR + NIN) {
@@ -229,8 +236,9 @@ static void c14_apply(int ev) {
         mapping_state *ms = D.mappingAutomata->extra;
         if (M14.had_frame && M14.frame_age >= 30) {
             int got = abs14(D.mappingAutomata->current_state);
-            if (got != Q_IDLE || ms->ctc != 0 || !session_table_is_empty(D.sessionTable) || D.sessionTable->count != 0)
-                vf_violation("mapping:inactivity-tick", "tick %u s after the last frame: mapping state %s, charge counter %u, session table count %u - the session must be ended, the counter cleared and the table emptied", M14.frame_age, got < 0 ? "?" : QNAME[got], ms->ctc, D.sessionTable->count);
+            int live = 0; for (int i = 0; i < SESSION_TABLE_MAX_ENTRIES; i++) live += D.sessionTable->entries[i].valid != 0;
+            if (got != Q_IDLE || ms->ctc != 0 || !session_table_is_empty(D.sessionTable) || D.sessionTable->count != 0 || live)
+                vf_violation("mapping:inactivity-tick", "tick %u s after the last frame: mapping state %s, charge counter %u, session table count %u, %d slot(s) still hold a session - the session must be ended, the counter cleared and the table emptied", M14.frame_age, got < 0 ? "?" : QNAME[got], ms->ctc, D.sessionTable->count, live);
             M14.s = Q_IDLE; M14.in_age = 0; M14.had_frame = 0;      /* the tick's own "-1" input restarts the input clock */
         } else {
             /* before the deadline the tick may or may not have fired (second granularity): follow the implementation */
@@ -301,7 +309,7 @@ int main(int argc, char **argv) {
             extern uint64_t vf_clock_origin; vf_clock_origin = o ? 3000500ull : 1000000ull;
             e1_run(&ccfg, &st[o]);
         }
-        if (st[0].states != st[1].states || st[0].transitions != st[1].transitions || st[0].out_hash != st[1].out_hash)
+        if (st[0].fixpoint && st[1].fixpoint && (st[0].states != st[1].states || st[0].transitions != st[1].transitions || st[0].out_hash != st[1].out_hash))
             vf_violation("time-translation-variance", "the exploration differs between clock origins 1000000 ms and 3000500 ms (%llu/%llu states): behaviour depends on absolute time", (unsigned long long)st[0].states, (unsigned long long)st[1].states);
         R.states = st[0].states + st[1].states; R.transitions = st[0].transitions + st[1].transitions; R.evaluations = R.transitions;
         R.max_depth = st[0].max_depth; R.fixpoint = st[0].fixpoint && st[1].fixpoint; R.exhaustive = R.fixpoint; R.cap_hit = st[0].cap;
